@@ -9,6 +9,7 @@ import (
 	"os"
 	"os/exec"
 	"path/filepath"
+	"regexp"
 	"sort"
 	"strconv"
 	"strings"
@@ -254,8 +255,8 @@ func getValues(e *enc, o *Obligation, leaves []leaf, dir string, pin map[string]
 // ---------- minimal s-expression reader
 
 type sexp struct {
-	atom string
-	list []*sexp
+	atom   string
+	list   []*sexp
 	isList bool
 }
 
@@ -924,6 +925,34 @@ func evalClauseGround(w *World, ss *SpecSet, fn *ssa.Function, o *Obligation, in
 		g, err := e.specBool(env, ct.Ensures[idx].E)
 		if err != nil {
 			return false, err.Error()
+		}
+		// regular-expression functions are evaluated for real on the concrete string inputs (the engine runs Go's regexp)
+		ssl := e.needStrSlice()
+		for fname, pat := range e.rePats {
+			rx, err := regexp.Compile(pat)
+			if err != nil {
+				continue
+			}
+			for _, l := range gl {
+				v, ok := in[l.path]
+				if !ok || l.kind != "string" {
+					continue
+				}
+				gs, ok := smtStrVal(v)
+				if !ok {
+					continue
+				}
+				m := rx.FindStringSubmatch(gs)
+				app := fmt.Sprintf("(%s %s)", fname, v)
+				if m == nil {
+					pins = append(pins, fmt.Sprintf("(and (nil_%s %s) (= (len_%s %s) 0))", ssl, app, ssl, app))
+					continue
+				}
+				pins = append(pins, fmt.Sprintf("(and (not (nil_%s %s)) (= (len_%s %s) %d))", ssl, app, ssl, app, len(m)))
+				for i, g := range m {
+					pins = append(pins, fmt.Sprintf("(= (select (arr_%s %s) %d) %s)", ssl, app, i, smtStr(g)))
+				}
+			}
 		}
 		for _, p := range pins {
 			e.assume(p)
